@@ -66,7 +66,10 @@ RandShape(x) == [s \in 1..RandomElement({1, 2, 3}) |-> RandScaffold(s)]
 TagShapes == {
    << <<C("+", Big), C("g", 200), C("+", Mid)>>, <<C("+", Mid)>> >>,
    << <<C("+", Big)>>, <<C("-", Mid), C("g", 1), C("+", Mid)>>, <<C("+", 2)>> >> }
-Shapes == (IF Mode = "tagged" THEN TagShapes ELSE FixedShapes) \cup {RandShape(x) : x \in 1..NRandom}
+\* Mode "tagperturb": tagging gestures followed by perturbations (slivers of tagged pieces, tagged baits that overlap) - outside what
+\* PretextView produces, inside what C01 / C11 quantify over
+Tagging == Mode \in {"tagged", "tagperturb"}
+Shapes == (IF Tagging THEN TagShapes ELSE FixedShapes) \cup {RandShape(x) : x \in 1..NRandom}
 
 ShapeLen(sh) == FoldLeft(LAMBDA a, r : a + r[2], 0, sh)
 \* concrete rows.  naming "fasta": contig name = scaffold name, contig coordinates = scaffold coordinates (as derived from a
@@ -75,8 +78,12 @@ ShapeLen(sh) == FoldLeft(LAMBDA a, r : a + r[2], 0, sh)
 IsFastaLike(shape) == \A s \in 1..Len(shape) : \A q \in 1..Len(shape[s]) : shape[s][q][1] \in {"+", "g"}
 \* NameStyle "plain": S1, S2, ... ; "hap": scaffolds alternate between two haplotypes, named as the haplotype-resolved assemblies
 \* are (the haplotype is the part before the first underscore, compared case-insensitively)
-ScName(s) == IF NameStyle = "hap" THEN (IF s % 2 = 1 THEN "HAP1_SCAFFOLD_" ELSE "hap2_scaffold_") \o ToString(s) ELSE "S" \o ToString(s)
-HapOf(s) == IF NameStyle = "hap" THEN (IF s % 2 = 1 THEN "hap1" ELSE "hap2") ELSE ""
+\* "hap3": three haplotypes in turn
+ScName(s) == IF NameStyle = "hap" THEN (IF s % 2 = 1 THEN "HAP1_SCAFFOLD_" ELSE "hap2_scaffold_") \o ToString(s)
+             ELSE IF NameStyle = "hap3" THEN (IF s % 3 = 1 THEN "HAP1_SCAFFOLD_" ELSE IF s % 3 = 2 THEN "hap2_scaffold_" ELSE "Hap3_Scaffold_") \o ToString(s)
+             ELSE "S" \o ToString(s)
+HapOf(s) == IF NameStyle = "hap" THEN (IF s % 2 = 1 THEN "hap1" ELSE "hap2")
+            ELSE IF NameStyle = "hap3" THEN (IF s % 3 = 1 THEN "hap1" ELSE IF s % 3 = 2 THEN "hap2" ELSE "hap3") ELSE ""
 ConcreteRows(shape, s, naming) ==
   LET sh == shape[s] IN
   [q \in 1..Len(sh) |->
@@ -84,7 +91,7 @@ ConcreteRows(shape, s, naming) ==
      IF sh[q][1] \in {"g", "h"} THEN GapRow(IF sh[q][1] = "g" THEN "scaffold" ELSE "contig", sh[q][2])
      ELSE IF naming = "fasta" THEN Frag(ScName(s), before + 1, before + sh[q][2], 1)
      ELSE IF naming = "shared" THEN Frag(ScName(s) \o "x", before + 1, before + sh[q][2], IF sh[q][1] = "+" THEN 1 ELSE -1)
-     ELSE Frag(ScName(s) \o (IF NameStyle = "hap" THEN "_" ELSE "c") \o ToString(q), 3 * q + 1, 3 * q + sh[q][2], IF sh[q][1] = "+" THEN 1 ELSE -1)]
+     ELSE Frag(ScName(s) \o (IF NameStyle \in {"hap", "hap3"} THEN "_" ELSE "c") \o ToString(q), 3 * q + 1, 3 * q + sh[q][2], IF sh[q][1] = "+" THEN 1 ELSE -1)]
 Concrete(shape, naming) == [s \in 1..Len(shape) |-> [name |-> ScName(s), rows |-> ConcreteRows(shape, s, naming)]]
 
 \* ------------------------------------------------------------------ state
@@ -100,7 +107,8 @@ Init == /\ shape \in Shapes
         /\ tex \in {tx \in [1..Len(shape) -> UNION {TexChoices(ShapeLen(shape[s])) : s \in 1..Len(shape)}] :
                          \A s \in 1..Len(shape) : tx[s] \in TexChoices(ShapeLen(shape[s]))}
         /\ \E s \in 1..Len(shape) : tex[s] > 0
-        /\ map \in (IF Mode = "null" THEN {NullMap(tex), [g \in 1..Len(NullMap(tex)) |-> [NullMap(tex)[g] EXCEPT !.painted = TRUE]]} ELSE {NullMap(tex)})
+        \* (tagging starts from the unedited map with no or with every scaffold painted: a chromosome-level assembly)
+        /\ map \in (IF Mode = "null" \/ Tagging THEN {NullMap(tex), [g \in 1..Len(NullMap(tex)) |-> [NullMap(tex)[g] EXCEPT !.painted = TRUE]]} ELSE {NullMap(tex)})
         /\ edits = 0 /\ perturbs = 0
 
 NPieces == FoldLeft(LAMBDA a, g : a + Len(g.pieces), 0, map)
@@ -113,7 +121,7 @@ Bump == edits < MaxEdits /\ perturbs = 0 /\ edits' = edits + 1 /\ UNCHANGED <<sh
 Boundaries(s) == LET sh == shape[s] IN {ShapeLen(SubSeq(sh, 1, q)) : q \in 0..Len(sh)}
 Mids(s) == LET sh == shape[s] IN {ShapeLen(SubSeq(sh, 1, q - 1)) + (sh[q][2] \div 2) : q \in 1..Len(sh)}
 CutPoints(pc) == {k \in (pc.i + MinTex)..(pc.j - MinTex) :
-                    IF Mode = "tagged"
+                    IF Tagging
                     THEN \/ \E c \in Boundaries(pc.src) : B(k) <= c /\ c < B(k + 1)
                          \/ \E m \in Mids(pc.src) : B(k) <= m /\ m < B(k + 1)
                     ELSE \/ k = pc.i + MinTex \/ k = pc.j - MinTex
@@ -128,36 +136,47 @@ Cut(g, p, k) ==
      /\ IF grp.painted \/ Len(grp.pieces) > 1
         THEN map' = [map EXCEPT ![g].pieces = SubSeq(grp.pieces, 1, p - 1) \o two \o SubSeq(grp.pieces, p + 1, Len(grp.pieces))]
         ELSE map' = SubSeq(map, 1, g - 1) \o <<[painted |-> FALSE, pieces |-> <<two[1]>>], [painted |-> FALSE, pieces |-> <<two[2]>>]>> \o SubSeq(map, g + 1, Len(map))
-Flip(g, p) == Mode # "tagged" /\ Bump /\ map' = [map EXCEPT ![g].pieces[p].rev = ~@]
+Flip(g, p) == ~Tagging /\ Bump /\ map' = [map EXCEPT ![g].pieces[p].rev = ~@]
 MoveInto(g, p, h, q) ==
   /\ Bump /\ g # h
   /\ LET pc == map[g].pieces[p]
          m1 == [map EXCEPT ![h].pieces = InsertAtSeq(@, q, pc), ![g].pieces = RemoveAtSeq(@, p)]
      IN map' = SelectSeq(m1, LAMBDA x : Len(x.pieces) > 0)
-MoveWithin(g, p, q) == Mode # "tagged" /\ Bump /\ p # q /\ map' = [map EXCEPT ![g].pieces = InsertAtSeq(RemoveAtSeq(@, p), q, map[g].pieces[p])]
+MoveWithin(g, p, q) == ~Tagging /\ Bump /\ p # q /\ map' = [map EXCEPT ![g].pieces = InsertAtSeq(RemoveAtSeq(@, p), q, map[g].pieces[p])]
 SplitOff(g, p) ==
-  /\ Mode # "tagged" /\ Bump /\ Len(map[g].pieces) > 1
+  /\ ~Tagging /\ Bump /\ Len(map[g].pieces) > 1
   /\ map' = SubSeq(map, 1, g - 1) \o <<[map[g] EXCEPT !.pieces = RemoveAtSeq(@, p)], [painted |-> map[g].painted, pieces |-> <<map[g].pieces[p]>>]>>
             \o SubSeq(map, g + 1, Len(map))
-SwapGroups(g) == Mode # "tagged" /\ Bump /\ g < Len(map) /\ map' = [map EXCEPT ![g] = map[g + 1], ![g + 1] = map[g]]
+SwapGroups(g) == ~Tagging /\ Bump /\ g < Len(map) /\ map' = [map EXCEPT ![g] = map[g + 1], ![g + 1] = map[g]]
 Paint(g) == Bump /\ map' = [map EXCEPT ![g].painted = ~@]
 \* tagging gestures (Mode = "tagged"): at most one of Haplotig / Contaminant / FalseDuplicate per piece, Target on any piece,
 \* a haplotype tag on the first piece of a painted scaffold whose source belongs to that haplotype
 RouteTags == {"Haplotig", "Contaminant", "FalseDuplicate"}
 HasAny(pc, S) == \E q \in 1..Len(pc.tags) : pc.tags[q] \in S
-TagRoute(g, p, tg) == /\ Mode = "tagged" /\ Bump /\ ~HasAny(map[g].pieces[p], RouteTags)
+TagRoute(g, p, tg) == /\ Tagging /\ Bump /\ ~HasAny(map[g].pieces[p], RouteTags)
                       /\ map' = [map EXCEPT ![g].pieces[p].tags = Append(@, tg)]
-TagTarget(g, p) == /\ Mode = "tagged" /\ Bump /\ ~HasAny(map[g].pieces[p], {"Target"})
+TagTarget(g, p) == /\ Tagging /\ Bump /\ ~HasAny(map[g].pieces[p], {"Target"})
                    /\ \A q \in 1..Len(map[g].pieces) : ~HasAny(map[g].pieces[q], {"Target"})
                    /\ map' = [map EXCEPT ![g].pieces[p].tags = Append(@, "Target")]
-HapSpellings(s) == IF s % 2 = 1 THEN {"HAP1", "Hap1"} ELSE {"hap2", "HAP2"}
-TagHap(g, sp) == /\ Mode = "tagged" /\ NameStyle = "hap" /\ Bump /\ map[g].painted
+HapSpellings(s) == IF HapOf(s) = "hap1" THEN {"HAP1", "Hap1"} ELSE IF HapOf(s) = "hap2" THEN {"hap2", "HAP2"} ELSE {"Hap3", "HAP3"}
+AllHapTags == {"HAP1", "Hap1", "hap2", "HAP2", "Hap3", "HAP3"}
+\* haplotype of a Pretext scaffold: its haplotype tag, or else the one in the name of its first piece's source
+TagHapOf(tg) == IF tg \in {"HAP1", "Hap1"} THEN "hap1" ELSE IF tg \in {"hap2", "HAP2"} THEN "hap2" ELSE "hap3"
+\* "Primary ... is used to tag the first 'Painted' chromosome in the curated haplotype": once in a map, on the first piece of a painted
+\* scaffold, and no earlier scaffold of the map belongs to the same haplotype
+HasPrimary == \E g \in 1..Len(map) : \E q \in 1..Len(map[g].pieces) : HasAny(map[g].pieces[q], {"Primary"})
+TagPrimary(g) == /\ Tagging /\ NameStyle \in {"hap", "hap3"} /\ Bump /\ map[g].painted /\ ~HasPrimary
+                 /\ \A h \in 1..(g - 1) : HapOf(map[h].pieces[1].src) # HapOf(map[g].pieces[1].src)
+                 /\ \A q \in 1..Len(map[g].pieces) : ~HasAny(map[g].pieces[q], RouteTags \cup {"Target"})
+                 /\ map' = [map EXCEPT ![g].pieces[1].tags = Append(@, "Primary")]
+TagHap(g, sp) == /\ Tagging /\ NameStyle \in {"hap", "hap3"} /\ Bump /\ map[g].painted
                  /\ \A q \in 1..Len(map[g].pieces) : Len(map[g].pieces[q].tags) = 0 \/ HasAny(map[g].pieces[q], RouteTags \cup {"Target"})
-                 /\ \A q \in 1..Len(map[g].pieces) : ~HasAny(map[g].pieces[q], {"HAP1", "Hap1", "hap2", "HAP2"})
+                 /\ \A q \in 1..Len(map[g].pieces) : ~HasAny(map[g].pieces[q], AllHapTags)
                  /\ sp \in HapSpellings(map[g].pieces[1].src)
                  /\ map' = [map EXCEPT ![g].pieces[1].tags = Append(@, sp)]
 Gesture == \E g \in 1..Len(map) :
-             \/ \E sp \in {"HAP1", "Hap1", "hap2", "HAP2"} : TagHap(g, sp)
+             \/ \E sp \in AllHapTags : TagHap(g, sp)
+             \/ TagPrimary(g)
              \/ \E p \in 1..Len(map[g].pieces) : TagTarget(g, p) \/ \E tg \in RouteTags : TagRoute(g, p, tg)
              \/ Paint(g) \/ SwapGroups(g)
              \/ \E p \in 1..Len(map[g].pieces) :
@@ -167,7 +186,7 @@ Gesture == \E g \in 1..Len(map) :
                   \/ \E h \in 1..Len(map) : \E q \in 1..(Len(map[h].pieces) + 1) : MoveInto(g, p, h, q)
 
 \* ------------------------------------------------------------------ perturbations (outside what PretextView can produce)
-PBump == Mode = "perturb" /\ perturbs < MaxPerturb /\ perturbs' = perturbs + 1 /\ UNCHANGED <<shape, naming, tex, edits>>
+PBump == Mode \in {"perturb", "tagperturb"} /\ perturbs < MaxPerturb /\ perturbs' = perturbs + 1 /\ UNCHANGED <<shape, naming, tex, edits>>
 Deltas == {-(ErrLen + 1), -1, 1, ErrLen + 1, Margin + 2}
 BaitA(pc) == B(pc.i) + 1 + pc.da
 BaitB(pc) == B(pc.j) + pc.db
@@ -186,7 +205,18 @@ Spec == Init /\ [][Next]_pvars
 \* ------------------------------------------------------------------ rendering for export
 PieceOut(pc) == [src |-> IF pc.ghost THEN "Nowhere" ELSE ScName(pc.src), a |-> BaitA(pc), b |-> BaitB(pc), st |-> IF pc.rev THEN -1 ELSE 1, tags |-> pc.tags]
 MapOut == [g \in 1..Len(map) |-> [painted |-> IF map[g].painted THEN 1 ELSE 0, pieces |-> [p \in 1..Len(map[g].pieces) |-> PieceOut(map[g].pieces[p])]]]
-Scenario == [tn |-> TN, td |-> TD, naming |-> naming, input |-> Concrete(shape, naming), map |-> MapOut,
+\* consistent use of the Primary tag in the finished map: on the first piece of a painted scaffold, no earlier scaffold belongs to the same
+\* haplotype (the tool learns which haplotype is the primary one when it reads that scaffold), and Target mode does not discard that scaffold
+\* haplotype of a Pretext scaffold as the tool reads it: a haplotype tag on any of its pieces, else the name of its first piece's source
+GHapTags(grp) == {t \in AllHapTags : \E q \in 1..Len(grp.pieces) : HasAny(grp.pieces[q], {t})}
+GHap(grp) == IF GHapTags(grp) # {} THEN TagHapOf(CHOOSE t \in GHapTags(grp) : TRUE) ELSE HapOf(grp.pieces[1].src)
+TargetBy(g) == \E h \in 1..g : \E q \in 1..Len(map[h].pieces) : HasAny(map[h].pieces[q], {"Target"})
+PrimaryOK == \A g \in 1..Len(map) : (\E q \in 1..Len(map[g].pieces) : HasAny(map[g].pieces[q], {"Primary"})) =>
+               /\ map[g].painted /\ HasAny(map[g].pieces[1], {"Primary"})
+               /\ \A h \in 1..(g - 1) : GHap(map[h]) # GHap(map[g])
+               /\ (TargetBy(g) => \E q \in 1..Len(map[g].pieces) : HasAny(map[g].pieces[q], {"Target"}))
+               /\ ~HasAny(map[g].pieces[1], RouteTags)
+Scenario == [primary_ok |-> IF PrimaryOK THEN 1 ELSE 0, tn |-> TN, td |-> TD, naming |-> naming, input |-> Concrete(shape, naming), map |-> MapOut,
              valid |-> IF perturbs = 0 THEN 1 ELSE 0, edits |-> edits, tex |-> tex, style |-> NameStyle, haps |-> [s \in 1..Len(shape) |-> HapOf(s)]]
 Emit == PrintT(ToJson(Scenario))
 \* type/shape invariant of the model itself: pieces of valid maps tile every present source scaffold's texel range
